@@ -379,6 +379,13 @@ func (ex *Explorer) runPath(tt *TT, sol *Solver, fnInfos map[*ssa.Function]*fnIn
 		}
 		in.callFunc(fn, nil, nil)
 	}()
+	// vacuity guard: the path condition of every completed path is checked satisfiable by the solver
+	// (assumptions about leaf-id distinctness are not checked one by one, see leafDistinctness)
+	if status == "done" && len(in.pc) > 0 {
+		if sol.Check(in.pc, "pathsat") == RUnsat {
+			status, msg = "infeasible", "path condition unsatisfiable at the end of the path"
+		}
+	}
 	// witness for completed paths
 	var wit *Witness
 	if status == "done" && ex.witnessN > 0 {
